@@ -46,6 +46,15 @@ theorem TreeOK_modifyAt (p : Name → Bool) (path : List Name) (f : Elem → Ele
     · exact h.kids c hc
     · exact ih d.2 (h.kids d hd)
 
+theorem TreeOK_elemAt (p : Name → Bool) : ∀ (path : List Name) (t e : Elem), TreeOK p t → elemAt path t = some e → TreeOK p e
+  | [], t, e, h, he => by simp only [elemAt, Option.some.injEq] at he; rw [← he]; exact h
+  | q :: qs, t, e, h, he => by
+    simp only [elemAt] at he
+    split at he
+    · rename_i nec c hg
+      exact TreeOK_elemAt p qs c e (h.kids (nec, c) (getChild_some_mem hg)) he
+    · cases he
+
 theorem TreeOK_withPosition (p : Name → Bool) (cs : List (Nec × Elem)) (e : Elem) (h : TreeOK p e) : TreeOK p (withPosition cs e) := by
   unfold withPosition
   split
@@ -125,5 +134,27 @@ theorem TreeOK_op (p : Name → Bool) (t : Elem) (op : Op) (hop : op.ok p) (hinv
     intro e he
     apply he.congr <;> cases e <;> rfl
   | get path name => exact h
+  | move src name dst =>
+    simp only [applyOp]
+    split
+    · exact h
+    · rename_i c hc
+      obtain ⟨e, he, hg⟩ : ∃ e, elemAt src t = some e ∧ getChild e.children name = some c := by
+        cases hs : elemAt src t with
+        | none => rw [hs] at hc; cases hc
+        | some e => rw [hs] at hc; exact ⟨e, rfl, hc⟩
+      have hck : TreeOK p c.2 := (TreeOK_elemAt p src t e h he).kids c (getChild_some_mem hg)
+      apply TreeOK_modifyAt p dst _ _ _ (TreeOK_modifyAt p src _ (fun e he => he.setKids _ (fun d hd => he.kids d (mem_eraseChild hd))) t h)
+      intro e' he'
+      apply he'.setKids
+      intro d hd
+      cases hg' : getChild e'.children c.2.name with
+      | some x => rw [addUniqueChild_of_present (by rw [hg']; rfl)] at hd; exact he'.kids d hd
+      | none =>
+        rw [addUniqueChild_of_absent hg'] at hd
+        simp only [List.mem_append, List.mem_singleton] at hd
+        rcases hd with hd | rfl
+        · exact he'.kids d hd
+        · exact TreeOK_withPosition p _ _ hck
 
 end Xsg
